@@ -95,6 +95,8 @@ def sink_configs(tier):
             (f"v{ver}_bad", dict(ver=ver, cap=2, kinds="K_q1q2", idmax=2, uses=1, bad=1, wrb=F, cancel=F, cids="Ids0"), ["server", "client"]),
             (f"v{ver}_subs", dict(ver=ver, cap=1, kinds="K_subs", idmax=3, uses=1, bad=0, wrb=F, cancel=T, cids="Ids0"), ["client"]),
             (f"v{ver}_ids", dict(ver=ver, cap=2, kinds="K_q1q1", idmax=2, uses=2, bad=0, wrb=F, cancel=F, cids="Ids01"), ["server"]),
+            # caller-chosen identifiers while a QoS 2 exchange still holds its identifier
+            (f"v{ver}_q2ids", dict(ver=ver, cap=2, kinds="K_q2q1", idmax=3, uses=1, bad=0, wrb=F, cancel=F, cids="Ids01"), ["server", "client"]),
             # senders that queue inside the handshake service, before set_cap() opens the window
             (f"v{ver}_prehs", dict(ver=ver, cap=1, kinds="K_rq1q1", idmax=3, uses=1, bad=0, wrb=F, cancel=T, cids="Ids0", prehs=T), ["server"]),
         ]
@@ -212,12 +214,15 @@ def inb_decode_for(params):
                    max_qos=2, max_receive=0 if ver == 3 else 16, max_receive_size=0)
         cmds = [handshake(role, ver)]
         npub = [0]
+        # variant "code16": a handler that succeeds answers with the success code "no matching
+        # subscribers" (0x10) instead of 0 - the exchange must go on exactly as for code 0
+        okc = (lambda c: dict(c, o="nack_ok", code=16) if c["o"] == "ok" else c) if _variant == "code16" else (lambda c: c)
         for t in tokens:
             if t[0] == "i":
                 kind, i, mode = t[1:].split(":")
                 i = int(i)
                 if mode != "g":
-                    cmds.append({"c": "arm", "o": mode, "code": 135})
+                    cmds.append(okc({"c": "arm", "o": mode, "code": 135}))
                 if kind in PKT:
                     q = PKT[kind][1]
                     p = {"t": "publish", "q": q, "id": i if q else 0, "topic": "t", "plen": 1 + (i % 2) * 2, "fill": 0x61 + i + q}
@@ -239,7 +244,7 @@ def inb_decode_for(params):
                     raise ValueError(t)
             elif t[0] == "c":
                 h, o = t[1:].split(":")
-                cmds.append({"c": "complete", "h": int(h), "o": o, "code": 135})
+                cmds.append(okc({"c": "complete", "h": int(h), "o": o, "code": 135}))
             else:
                 raise ValueError(t)
         cmds.append({"c": "drain"})
@@ -264,7 +269,8 @@ def inb_configs(tier):
                 base.append(("q2", dict(ids="Ids1", n=2, kinds="KPub2", outs="OOk", imm=T, gp=F)))
             for name, p in base:
                 p = dict(p, ver=ver, role=role)
-                cs.append((f"v{ver}{role[0]}_{name}", INB_CFG.format(**p), "MC_Inbound", inb_decode_for(p), [None]))
+                cs.append((f"v{ver}{role[0]}_{name}", INB_CFG.format(**p), "MC_Inbound", inb_decode_for(p),
+                           [None, "code16"] if ver == 5 and srv and name in ("pub", "ids") else [None]))
     return cs
 
 
@@ -751,6 +757,12 @@ def c07_causes(role, ver):
     ]
     if role == "server":
         c.append([mark("stop_error"), {"c": "arm", "o": "err"}, {"c": "in", "p": {"t": "pingreq"}}])  # protocol handler error
+    # slow Stop handler for the causes the endpoint detects itself: handlers in flight may only be
+    # cancelled once the notification has been handled
+    c.append([mark("stop_error"), {"c": "gate", "what": "stop", "on": 1}, {"c": "arm", "o": "err"},
+              {"c": "in", "p": {"t": "publish", "q": 1, "id": 13, "topic": "t", "plen": 1}}, {"c": "complete", "j": 9, "o": "ok"}])
+    c.append([mark("stop_proto"), {"c": "gate", "what": "stop", "on": 1}, {"c": "in", "p": {"t": "raw", "hex": "00 00"}},
+              {"c": "complete", "j": 9, "o": "ok"}])
     return c
 
 
@@ -763,7 +775,7 @@ def c07_decode_for(role, ver):
         extra, base = scen[s - 1]
         if i > len(base) or c > len(causes):
             return None, None
-        if s == 2 and i >= 1 and c in (4, 5, 6, 11, 12):
+        if s == 2 and i >= 1 and any(x.get("c") == "in" for x in causes[c - 1]):
             return None, None      # a packet written inside a half-received payload is payload
         cfg = dict(role=role, ver=ver, gate_pub=1, gate_proto=0, max_qos=2, max_receive=16)
         cfg.update({k: v for k, v in extra.items() if not k.startswith("_")})
@@ -844,6 +856,9 @@ def c08_decode_for(ver, role):
                 cmds.append({"c": "send", "s": nxt, "k": "stream0", "plen": 5}); cur = nxt; nxt += 1
             elif t == 10:
                 cmds += [{"c": "send", "s": nxt, "k": "q1", "id": 0, "topic": "x" * 70000}, {"c": "poll", "s": nxt}]; nxt += 1
+            elif t == 18:   # a streamed publish whose header cannot be encoded; its stream handle is used anyway
+                cmds += [{"c": "send", "s": nxt, "k": "stream1", "id": 0, "plen": 6, "topic": "x" * 70000}, {"c": "poll", "s": nxt}]
+                cur = nxt; nxt += 1
             elif t == 11:
                 cmds += [{"c": "send", "s": nxt, "k": "q1", "id": 0, "plen": 200}, {"c": "poll", "s": nxt}]; nxt += 1
             elif t == 12:
@@ -871,10 +886,10 @@ def c08_configs(tier):
     for ver in (3, 5):
         for role in ("server", "client"):
             if tier == "quick":
-                cs.append((f"v{ver}{role[0]}_l2", PKTSEQ_CFG.format(nt=17, maxlen=2, minlen=1), "PktSeq", c08_decode_for(ver, role), [None]))
-                cs.append((f"v{ver}{role[0]}_l4", PKTSEQ_CFG.format(nt=17, maxlen=4, minlen=3), "PktSeq", c08_decode_for(ver, role), [None]))
+                cs.append((f"v{ver}{role[0]}_l2", PKTSEQ_CFG.format(nt=18, maxlen=2, minlen=1), "PktSeq", c08_decode_for(ver, role), [None]))
+                cs.append((f"v{ver}{role[0]}_l4", PKTSEQ_CFG.format(nt=18, maxlen=4, minlen=3), "PktSeq", c08_decode_for(ver, role), [None]))
             else:
-                cs.append((f"v{ver}{role[0]}_l4", PKTSEQ_CFG.format(nt=17, maxlen=4, minlen=1), "PktSeq", c08_decode_for(ver, role), [None]))
+                cs.append((f"v{ver}{role[0]}_l4", PKTSEQ_CFG.format(nt=18, maxlen=4, minlen=1), "PktSeq", c08_decode_for(ver, role), [None]))
     return cs
 
 
